@@ -204,7 +204,24 @@ func (m CoseMap) GetMap(k any) (CoseMap, error) {
 
 // MarshalCBOR implements the CBOR Marshaler interface for CoseMap.
 func (m CoseMap) MarshalCBOR() ([]byte, error) {
-	return MarshalCBOR(map[any]any(m))
+	if m == nil {
+		return MarshalCBOR(map[any]any(nil))
+	}
+
+	// labels are normalised as UnmarshalCBOR does, so that the same label held under
+	// two Go integer types can not be written twice.
+	mm := make(map[any]any, len(m))
+	for k, v := range m {
+		tk, err := checkKey(k)
+		if err != nil {
+			return nil, err
+		}
+		if _, ok := mm[tk]; ok {
+			return nil, fmt.Errorf("cose/key: CoseMap.MarshalCBOR: duplicate key %v", tk)
+		}
+		mm[tk] = v
+	}
+	return MarshalCBOR(mm)
 }
 
 // UnmarshalCBOR implements the CBOR Unmarshaler interface for CoseMap.
